@@ -18,7 +18,9 @@ from mc.terms import B, DEFAULT, I, L
 LEVEL = "exploration"
 
 P = ["http://p1/", "http://p2/", "http://p3#", "http://p1/q/"]
-IRIS = [I(P[0] + "a"), I(P[1] + "a"), I(P[2] + "b"), I(P[3] + "b"), I(P[0] + "b")]
+# (the last one has no '/' or '#': its prefix is the empty string, which is an entry of its own
+#  once any other prefix has been used)
+IRIS = [I(P[0] + "a"), I(P[1] + "a"), I(P[2] + "b"), I(P[3] + "b"), I(P[0] + "b"), I("noseparator")]
 DTS = ["http://p1/a", "http://d/2", "http://d/3"]
 LITS = [L("x", None, d) for d in DTS]
 TERMS = IRIS + LITS
@@ -188,7 +190,7 @@ def run(ctx) -> None:
         ok_or_refused=merged["counters"].get("ok_or_refused", 0),
         samples=merged["samples"] or [{"statement": sts[1]}],
         rule=(
-            "all 8^3 statements over 5 IRIs (4 prefixes) + 3 typed literals, and quoted triples "
+            "all 9^3 statements over 6 IRIs (4 prefixes + the empty prefix) + 3 typed literals, and quoted triples "
             "nested to depth 2 with 27 IRI leaves over k=9..27 names, x every preset "
             "(names{8,12,20,26} x prefixes{0..3} x datatypes{0..3}) in which an enabled table is "
             f"smaller than the statement needs x histories of length<={hist_len} x three stream "
